@@ -561,7 +561,13 @@ class C04(World):
                 return boxes[np.lexsort(np.round(boxes, 6).T[::-1])] if len(boxes) else boxes
             return getattr(obj, name)
 
+        # a drawing with arcs reports area, length and extent of the chords it draws its arcs with, and how many chords that is
+        # follows the size of the drawing when they are drawn: chords carried through a scale and chords drawn afresh differ by
+        # ~1e-5 of the value (soak #10) - staleness, by contrast, is of the order of the edit
+        arcs = kind == "path2d" and any(type(e_).__name__ == "Arc" for e_ in o.entities)
         for name, t in DERIVED.get(kind, []):
+            if arcs:
+                t = max(t, 2e-4)
             try:
                 want = read(fresh, name)
             except (KeyboardInterrupt, SystemExit, MemoryError):
